@@ -315,7 +315,7 @@ def run(c):
         "hand-written store machine coq/theories/Store/Model.v (boltz CRUD, constraints, delete cascade, link cleanup, tx glue)",
         "bbolt as a transactional key/bucket store whose rollback restores the previous content",
         "extraction (ExtrOcamlBasic only) + extraction/store_driver.ml + drv_common.ml",
-        "Go harness store.go / store_gen.go / store_c06.go / store_c06_child.go / store_c06_links.go (schema interpreter, history generator, fact projection - "
+        "Go harness store.go / store_gen.go / store_c06.go / store_c06_child.go / store_c06_links.go / store_c06_names.go (schema interpreter, history generator, fact projection - "
         "string sets inside a child-store bucket are projected to the same S: facts as the model's root-level sets -, ValidateDeleted call) "
         "and lib/storefam.py / checks/c06.py",
         "ref-counted link collections are NOT in the Coq machine: covered by the harness stream + oracle only",
@@ -458,6 +458,13 @@ def run(c):
         "prefixes of one another), then either end is deleted (same transaction or later, through child or parent store), the id comes back, is probed and "
         "linked again (must report a new link), the other end goes; the bools are compared with the machine (Store/LinkOne.v) next to results and facts. "
         "Plus RC sequence histories: one pair of a ref-counted collection counted up / down / set several times inside one transaction, then deletes of either end. "
+        "SAME-NAME histories (3n/10 more in the quick, n/10 in the thorough tier; wirings C06sa / C06sb / C06sc, generated last): stores of ONE family - two or three sibling "
+        "child stores, a child store and its parent - and stores of different families declare fk constraints (cascade and restrict) / fk indexes (cascade and restrict) on "
+        "fields of the SAME NAME that point at one target store (a child store reports its parent's entity type, so '<entity type>.<field>' is the same for all of them; the "
+        "schema, the machine and the facts identify a field by store and name); unique indexes on 'name' and set indexes on 'marks' in several families. 2 of 5 histories put "
+        "referrers of SEVERAL equally named edges on one target X at once (1-3 neighbouring referrers per referrer store, all edges or a subset), release the restrict referrers "
+        "edge by edge (so that the referrers of exactly one store may be left: the delete must be refused) and delete X in the transaction that wrote them or later, re-create "
+        "the id, reference it from every store again, delete again; the others are child-level subject histories, bursts over one edge and the tail of the main stream on these wirings. "
         "Non-trivial: every history has at least 5 transactions; distinct by case text.")
     ks = sorted(set((0, len(cases) // 2, max(0, len(cases) - 1))))
     c.cov["samples"] = [dict(case=cases[k][:1500], impl=impl[k][:1500], model=modl[k][:1500]) for k in ks if k < len(cases)]
@@ -465,7 +472,8 @@ def run(c):
         c.cov["input_distribution"] = json.load(open(os.path.join(c.work, "stats.json")))
         for key in ("burst_histories", "burst_delete_tx_committed", "burst_deleted_entities", "child_histories", "child_delete_tx_committed",
                     "child_deleted_entities", "rc_child_histories", "linkseq_histories", "linkseq_bool_observations", "linkseq_delete_tx_committed",
-                    "linkseq_deleted_entities", "rc_seq_histories"):
+                    "linkseq_deleted_entities", "rc_seq_histories", "samename_histories", "samename_group_histories", "samename_delete_tx_committed",
+                    "samename_deleted_entities", "samename_delete_with_restrict_referrers_left"):
             c.cov[key] = c.cov["input_distribution"].get(key, 0)
     except Exception:
         pass
@@ -482,7 +490,7 @@ def main(argv):
     c = vlib.Check(PID, argv)
     c.assumptions = ["bbolt rollback restores the previous content (trusted; observed by the full traversal after every transaction)",
                      "schemas satisfy wf_notrace_b (checked by computation for the harness wirings idx, fkc, casc, cl and the child-level "
-                     "wirings C06cp, C06cx, C06cm in Examples/C06Wirings.v)"]
+                     "wirings C06cp, C06cx, C06cm and the same-name wirings C06sa, C06sb, C06sc in Examples/C06Wirings.v)"]
     files = [f for f in FILES if os.path.exists(os.path.join(vlib.COQ, f))]
     proof_ok = c.proof_step(files) and len(files) == len(FILES)
     run(c)
